@@ -223,6 +223,37 @@ class TreeBuilder(ET.TreeBuilder):
             logger.debug(f"Popping tag '{closetag}'")
             self.end(tag)
 
+    def start(self, tag, attrs):
+        """
+        Keep track of open elements so that end()/close() can verify that
+        aggregates are properly nested; ET.TreeBuilder itself doesn't.
+        """
+        self._opentags().append(tag)
+        return super().start(tag, attrs)
+
+    def end(self, tag):
+        opentags = self._opentags()
+        if not opentags or opentags[-1] != tag:
+            expected = f"<{opentags[-1]}>" if opentags else "nothing"
+            raise ParseError(f"End tag </{tag}> doesn't match open element {expected}")
+        opentags.pop()
+        return super().end(tag)
+
+    def close(self):
+        opentags = self._opentags()
+        if opentags:
+            raise ParseError(f"Missing end tags for open elements {opentags}")
+        return super().close()
+
+    def _opentags(self) -> list:
+        # ET.TreeBuilder is instantiated without calling our __init__ by some
+        # callers, so create the stack lazily.
+        try:
+            return self._openstack
+        except AttributeError:
+            self._openstack: list = []
+            return self._openstack
+
     @staticmethod
     def _groomstring(string: str) -> Optional[str]:
         """Strips whitespace and returns None for empty string"""
